@@ -18,6 +18,7 @@ mod c06;
 mod c19;
 mod c18;
 mod c10;
+mod c07;
 
 fn main() {
     let args: Vec<String> = std::env::args().collect();
@@ -80,6 +81,7 @@ fn generate(prop: &str, seed: u64, thorough: bool) -> Vec<serde_json::Value> {
         "C19" => c19::generate(seed, thorough),
         "C18" => c18::generate(seed, thorough),
         "C10" => c10::generate(seed, thorough),
+        "C07" => c07::generate(seed, thorough),
         other => { eprintln!("unknown property {}", other); std::process::exit(2); }
     }
 }
@@ -98,6 +100,7 @@ fn run_case(prop: &str, id: usize, input: &serde_json::Value) {
         "C19" => c19::run_case(id, input),
         "C18" => c18::run_case(id, input),
         "C10" => c10::run_case(id, input),
+        "C07" => c07::run_case(id, input),
         other => { eprintln!("unknown property {}", other); std::process::exit(2); }
     }
 }
